@@ -327,8 +327,9 @@ class ProgramSet(NamedItem):
         for prog in self.programs.values():
             if code_name in prog.target_pops:
                 prog.target_pops.remove(code_name)
-            if (prog.name, code_name) in self.covouts:
-                self.covouts.pop((prog.name, code_name))
+
+        for key in [k for k in self.covouts.keys() if k[1] == code_name]:
+            del self.covouts[key]
 
         del self.pops[code_name]
 
